@@ -42,7 +42,9 @@ ZT == 2                                    \* coarse zero tolerance (units of 1/
 
 (* ------------------------------------------------------------ fixed point *)
 (* nearest integer to S * r for a rational r (floor based; ties up) *)
-FxOfRat(r) == LET q == r.n \div r.d  rem == r.n % r.d IN q * S + (2 * rem * S + r.d) \div (2 * r.d)
+FxOfRat(r) == LET q == r.n \div r.d  rem == r.n % r.d
+              IN IF r.d <= 524288 THEN q * S + (2 * rem * S + r.d) \div (2 * r.d)
+                 ELSE LET d2 == r.d \div S IN q * S + (rem + d2 \div 2) \div d2     \* large denominators: within one unit, no 32-bit overflow
 AbsM(A) == IF Rows(A) = 0 THEN 0
            ELSE MaxInts(TLCEval([i \in 1..Rows(A) |-> MaxInts(TLCEval([j \in 1..Cols(A) |-> Abs(A[i][j])]))]))
 Near(a, b, tol) == Abs(a - b) <= tol
